@@ -51,7 +51,6 @@ Print Assumptions C05_fcc_line_emits_its_characters.
 Theorem C05_rmb_emits_zeros :
   forall i s v,
     text_eqb (mnem i) RMB_t = true -> text_eqb (mnem i) FCB_t = false -> text_eqb (mnem i) FDB_t = false ->
-    v_int v <= 32767 ->
     exists p, translate_operand (OPseudo s v) i = Ok p /\ cp_size p = v_int v /\
               emit_value (cp_op p) = Ok [] /\ emit_value (cp_post p) = Ok [] /\
               emit_value (cp_add p) = Ok (repeat 0 (N.to_nat (v_int v))).
@@ -59,11 +58,11 @@ Proof. exact rmb_emits_zeros. Qed.
 Print Assumptions C05_rmb_emits_zeros.
 
 (* (b-line) RMB n from the SOURCE LINE: a statement line in any layout whose operand is a decimal or $hex literal in any
-   spelling up to 32767 is accepted, survives symbol resolution unchanged whatever the table holds, reserves exactly n
+   spelling (every n the assembler reads: 0..65535, PC01acc.lit_value_16bit) is accepted, survives symbol resolution unchanged whatever the table holds, reserves exactly n
    bytes and emits n zeros *)
 Theorem C05_rmb_literal_line_reserves_zeros :
   forall f l,
-    well_formed_fields f -> upper_t (lf_mn f) = RMB_t -> lf_ops f = lit_text l -> lit_ok l -> lit_value l <= 32767 ->
+    well_formed_fields f -> upper_t (lf_mn f) = RMB_t -> lf_ops f = lit_text l -> lit_ok l ->
     exists st p, parse_line (line_of f) = Ok (Some st) /\ s_label st = lf_label f /\
       (forall tb, resolve_operand (s_operand st) (s_instr st) tb = Ok (s_operand st)) /\
       translate_operand (s_operand st) (s_instr st) = Ok p /\
